@@ -71,7 +71,27 @@ def _sym_state(E, a, tag, concrete_pop=None, light=False):
     a.total_homekill_this_month = [0]
     if a.animal_function == "milk":
         a.retiring_milk_animals = []
+    if not light:
+        # a month is never the first one in general: every record list already holds an OLDER entry, arbitrary (symbolic) -- code that reads index 0 or any index other
+        # than the latest one picks it up
+        def older(name):
+            v = E.real("%s_older_%s" % (tag, name))
+            E.assume(v >= 0)
+            E.assume(v <= 1e12)
+            return v
+        _pad_history(a, older)
     return dict(cur=cur, sl=sl, pt=pt, pb=pb, fed=fed, base=base)
+
+
+HISTORY_LISTS = ["population", "slaughter", "pregnant_animals_total", "pregnant_animals_birthing_this_month", "population_starving_pre_slaughter", "other_death_total", "other_death_starving",
+                 "other_death_causes_other_than_starving", "births_animals_month", "transfer_population", "transfer_births", "slaughtered_pregnant_animals", "homekill_other_death_this_month",
+                 "homekill_healthy_this_month", "homekill_starving_this_month", "total_homekill_this_month", "retiring_milk_animals"]
+
+
+def _pad_history(a, older):
+    for name in HISTORY_LISTS:
+        if hasattr(a, name) and isinstance(getattr(a, name), list):
+            setattr(a, name, [older(name)] + list(getattr(a, name)))
 
 
 def _ledger_checks(E, a, st, tag=""):
@@ -144,7 +164,7 @@ def worker_step(case, seed):
         rem = out["hours_by_size_dict"][a.animal_size]
         E.check("labour hours: used = slaughter x hours per head <= class capacity; remainder >= 0",
                 conj([rem >= 0, close(cap - rem, sl * a.animal_slaughter_hours, 1e-12, 1e-12), sl * a.animal_slaughter_hours <= cap * (1 + 1e-12) + 1e-12]))
-        E.check("lists advance by exactly one month", [len(a.population), len(a.slaughter), len(a.births_animals_month), len(a.other_death_total)] == [2, 2, 1, 2])
+        E.check("lists advance by exactly one month", [len(a.population), len(a.slaughter), len(a.births_animals_month), len(a.other_death_total)] == [3, 3, 2, 3])
     E.explore(h)
     return E.summary()
 
@@ -173,6 +193,8 @@ def _replay_state(a, m, tag):
         setattr(a, k, [0])
     if a.animal_function == "milk":
         a.retiring_milk_animals = []
+    if any(k.startswith(tag + "_older_") for k in m):
+        _pad_history(a, lambda name: m.get("%s_older_%s" % (tag, name), 0.0))
     return dict(cur=g("pop"), fed=g("fed"), base=g("baseline_slaughter"))
 
 
